@@ -922,7 +922,8 @@ namespace fixedmath
       return as_fixed(res_tan);
        }
     else
-      return quiet_NaN_result();
+      // keep tan(-x) == -tan(x) at the pole as well
+      return sign_ ? -quiet_NaN_result() : quiet_NaN_result();
     }
     
   //------------------------------------------------------------------------------------------------------
